@@ -26,8 +26,12 @@ type op struct {
 
 type caseT struct {
 	Script []op   `json:"script"`
-	Elem   string `json:"elem,omitempty"` // element type of the typed family ("" = int)
+	Elem   string `json:"elem,omitempty"` // element type of the typed family ("" = int); "long" = the long-sequence case
+	N      int    `json:"n,omitempty"`
 }
+
+type lseq = list.Seq[int]
+type sseq = slice.Seq[int]
 
 var (
 	rec *common.Recorder
@@ -199,6 +203,10 @@ func main() {
 			rec.Inconclusive("cannot load replay: " + err.Error())
 			return
 		}
+		if c.Elem == "long" {
+			runLongSeq(c.N)
+			return
+		}
 		if c.Elem != "" {
 			runTypedKind(c.Elem, c.Script)
 			return
@@ -207,6 +215,9 @@ func main() {
 		return
 	}
 	typedScripts()
+	for _, n := range []int{1 << 20, 4 << 20}[:common.Pick(1, 2)] {
+		runLongSeq(n)
+	}
 	depth := common.Pick(5, 7)
 	for d := 1; d <= depth; d++ {
 		enumerate(nil, nil, 100, d)
